@@ -1,4 +1,6 @@
-"""RISC-V (RV32E / RV32I / RV64I) interpreter for the subset the generators emit."""
+"""RISC-V (RV32E / RV32I / RV64I) interpreter: the subset the generators emit plus the rest of the base integer ISA and the
+usual assembler pseudo-instructions (all conditional branches, register shifts, set-less-than, byte/half loads and stores,
+the RV64 *w forms), so that a rewrite of the same function is decided, not left inconclusive.  No M/A/C extensions."""
 import re
 from emucore import Memory, Program, Unsupported, Violation, parse_int, STATE_BASE, STACK_TOP, STACK_SIZE, RET_SENTINEL
 
@@ -66,6 +68,52 @@ class RV:
                 a, b = x[self.reg(ops[1])], x[self.reg(ops[2])]
                 v = a ^ b if mn == 'xor' else a & b if mn == 'and' else a | b if mn == 'or' else a + b if mn == 'add' else a - b
                 rd = self.reg(ops[0])
+            elif mn in ('sll', 'srl', 'sra'):
+                a, sh = x[self.reg(ops[1])], x[self.reg(ops[2])] & (self.xlen - 1)
+                v = (a << sh) if mn == 'sll' else (a >> sh) if mn == 'srl' else (self.sx(a, self.xlen) >> sh)
+                rd = self.reg(ops[0])
+            elif mn in ('slt', 'sltu'):
+                a, b = x[self.reg(ops[1])], x[self.reg(ops[2])]
+                v = int(a < b) if mn == 'sltu' else int(self.sx(a, self.xlen) < self.sx(b, self.xlen))
+                rd = self.reg(ops[0])
+            elif mn in ('slti', 'sltiu'):
+                a, imm = x[self.reg(ops[1])], parse_int(ops[2])
+                if not -2048 <= imm <= 2047:
+                    raise Violation('encoding', 'immediate %d out of range in: %s' % (imm, src))
+                v = int(a < (imm & M)) if mn == 'sltiu' else int(self.sx(a, self.xlen) < imm)
+                rd = self.reg(ops[0])
+            elif mn in ('seqz', 'snez', 'sltz', 'sgtz'):
+                a = x[self.reg(ops[1])]
+                sa = self.sx(a, self.xlen)
+                v = int(a == 0) if mn == 'seqz' else int(a != 0) if mn == 'snez' else int(sa < 0) if mn == 'sltz' else int(sa > 0)
+                rd = self.reg(ops[0])
+            elif mn == 'neg':
+                v, rd = -x[self.reg(ops[1])], self.reg(ops[0])
+            elif mn == 'srai':
+                a, sh = x[self.reg(ops[1])], parse_int(ops[2])
+                if not 0 <= sh < self.xlen:
+                    raise Violation('encoding', 'shift amount %d out of range in: %s' % (sh, src))
+                v, rd = self.sx(a, self.xlen) >> sh, self.reg(ops[0])
+            elif mn == 'lui':
+                imm = parse_int(ops[1])
+                if not 0 <= imm <= 0xfffff:
+                    raise Violation('encoding', 'lui immediate out of range in: %s' % src)
+                v, rd = self.sx(imm << 12, 32), self.reg(ops[0])
+            elif mn == 'nop':
+                v, rd = 0, 0
+            elif self.xlen == 64 and mn in ('addw', 'subw', 'sllw', 'srlw', 'sraw'):
+                a, b = x[self.reg(ops[1])] & 0xffffffff, x[self.reg(ops[2])]
+                v = a + b if mn == 'addw' else a - b if mn == 'subw' else a << (b & 31) if mn == 'sllw' else a >> (b & 31) if mn == 'srlw' else self.sx(a, 32) >> (b & 31)
+                v, rd = self.sx(v, 32), self.reg(ops[0])
+            elif self.xlen == 64 and mn in ('addiw', 'slliw', 'srliw', 'sraiw', 'sext.w'):
+                a = x[self.reg(ops[1])] & 0xffffffff
+                imm = 0 if mn == 'sext.w' else parse_int(ops[2])
+                if mn != 'addiw' and mn != 'sext.w' and not 0 <= imm < 32:
+                    raise Violation('encoding', 'shift amount %d out of range in: %s' % (imm, src))
+                if mn == 'addiw' and not -2048 <= imm <= 2047:
+                    raise Violation('encoding', 'immediate %d out of range in: %s' % (imm, src))
+                v = a + imm if mn in ('addiw', 'sext.w') else a << imm if mn == 'slliw' else a >> imm if mn == 'srliw' else self.sx(a, 32) >> imm
+                v, rd = self.sx(v, 32), self.reg(ops[0])
             elif mn in ('xori', 'andi', 'ori', 'addi'):
                 a, imm = x[self.reg(ops[1])], parse_int(ops[2])
                 if not -2048 <= imm <= 2047:
@@ -85,23 +133,25 @@ class RV:
                 v, rd = x[self.reg(ops[1])], self.reg(ops[0])
             elif mn == 'li':
                 v, rd = parse_int(ops[1]), self.reg(ops[0])
-            elif mn in ('lw', 'ld', 'lwu'):
+            elif mn in ('lw', 'ld', 'lwu', 'lb', 'lbu', 'lh', 'lhu'):
                 off, base = self.memop(ops[1])
-                size = 8 if mn == 'ld' else 4
-                if mn == 'ld' and self.xlen != 64:
-                    raise Unsupported('ld on RV32')
+                size = 8 if mn == 'ld' else 4 if mn in ('lw', 'lwu') else 2 if mn in ('lh', 'lhu') else 1
+                if mn in ('ld', 'lwu') and self.xlen != 64:
+                    raise Unsupported('%s on RV32' % mn)
                 addr = (x[base] + off) & M
                 if addr % size:
                     raise Violation('misaligned-access', '%s at 0x%x' % (src, addr))
                 if STACK_TOP - STACK_SIZE <= addr < x[2]:
                     raise Violation('access-below-stack-pointer', '%s touches 0x%x while sp = 0x%x' % (src, addr, x[2]))
                 v = mem.load(addr, size, src)
-                if mn == 'lw' and self.xlen == 64:
-                    v = self.sx(v, 32)
+                if mn in ('lw', 'lh', 'lb'):
+                    v = self.sx(v, 8 * size)
                 rd = self.reg(ops[0])
-            elif mn in ('sw', 'sd'):
+            elif mn in ('sw', 'sd', 'sh', 'sb'):
                 off, base = self.memop(ops[1])
-                size = 8 if mn == 'sd' else 4
+                size = 8 if mn == 'sd' else 4 if mn == 'sw' else 2 if mn == 'sh' else 1
+                if mn == 'sd' and self.xlen != 64:
+                    raise Unsupported('sd on RV32')
                 addr = (x[base] + off) & M
                 if addr % size:
                     raise Violation('misaligned-access', '%s at 0x%x' % (src, addr))
@@ -109,22 +159,39 @@ class RV:
                     raise Violation('write-outside-allowed-memory', '%s stores above the entry stack pointer (caller frame)' % src)
                 if STACK_TOP - STACK_SIZE <= addr < x[2]:
                     raise Violation('access-below-stack-pointer', '%s touches 0x%x while sp = 0x%x' % (src, addr, x[2]))
-                mem.store(addr, size, x[self.reg(ops[0])], src)
+                mem.store(addr, size, x[self.reg(ops[0])] & ((1 << (8 * size)) - 1), src)
                 rd = 0
                 v = 0
-            elif mn in ('beq', 'bne'):
+            elif mn in ('beq', 'bne', 'blt', 'bge', 'bltu', 'bgeu', 'bgt', 'ble', 'bgtu', 'bleu'):
                 a, b = x[self.reg(ops[0])], x[self.reg(ops[1])]
-                if (a == b) == (mn == 'beq'):
-                    if ops[2] not in prog.labels:
-                        raise Unsupported('branch target %r' % ops[2])
+                if mn in ('bgt', 'ble', 'bgtu', 'bleu'):      # pseudo-instructions: operands swapped
+                    a, b = b, a
+                    mn2 = {'bgt': 'blt', 'ble': 'bge', 'bgtu': 'bltu', 'bleu': 'bgeu'}[mn]
+                else:
+                    mn2 = mn
+                sa, sb = self.sx(a, self.xlen), self.sx(b, self.xlen)
+                take = a == b if mn2 == 'beq' else a != b if mn2 == 'bne' else sa < sb if mn2 == 'blt' else sa >= sb if mn2 == 'bge' else a < b if mn2 == 'bltu' else a >= b
+                if ops[2] not in prog.labels:
+                    raise Unsupported('branch target %r' % ops[2])
+                if take:
                     npc = prog.labels[ops[2]]
+                rd, v = 0, 0
+            elif mn in ('beqz', 'bnez', 'bltz', 'bgez', 'blez', 'bgtz'):
+                sa = self.sx(x[self.reg(ops[0])], self.xlen)
+                take = sa == 0 if mn == 'beqz' else sa != 0 if mn == 'bnez' else sa < 0 if mn == 'bltz' else sa >= 0 if mn == 'bgez' else sa <= 0 if mn == 'blez' else sa > 0
+                if ops[1] not in prog.labels:
+                    raise Unsupported('branch target %r' % ops[1])
+                if take:
+                    npc = prog.labels[ops[1]]
                 rd, v = 0, 0
             elif mn == 'j':
                 if ops[0] not in prog.labels:
                     raise Unsupported('jump target %r' % ops[0])
                 npc = prog.labels[ops[0]]
                 rd, v = 0, 0
-            elif mn == 'ret':
+            elif mn == 'jr' and self.reg(ops[0]) != 1:
+                raise Unsupported('indirect jump: %s' % src)
+            elif mn in ('ret', 'jr'):
                 if x[1] != RET_SENTINEL:
                     problems.append(('return-address', 'ret jumps to 0x%x, not to the caller' % x[1]))
                 break
